@@ -9,6 +9,10 @@
 //! a remote sends `Live(op)` into a session, the application publishes an op through
 //! `session_handle`, re-injections of earlier ops from the same or other sessions (duplicates),
 //! a remote leaves with `Close`; actions are separated by nothing, a few yields, or quiescence.
+//! In half of the flows 1-3 sessions join *late* (created through the manager and run only after
+//! traffic has flowed, usually two on the same topic), and operations from before the join then
+//! re-arrive through the remote of a late joiner; rarely a re-injection goes to the *other*
+//! topic, so that the same operation lives on both topics.
 //!
 //! Quiescence (never a bare sleep):
 //!   * `paused` flows run on a current-thread runtime whose clock is paused once live mode is
@@ -26,8 +30,10 @@
 //!      session that accepted X from its remote must not send it, and one that already sent it
 //!      must drop the remote's copy; the order in the witness says which)
 //!   3. sessions of another topic never send X
-//!   4. if some session accepted X from its remote (ev >= 1): every other live session of the
-//!      topic sent it exactly once, and mgr == 1; in any case mgr <= 1
+//!   4. per acceptance: whenever a session accepted X from its remote, every other session of
+//!      that topic that was a live member at that moment (late joiners count from their join)
+//!      ends up having sent X exactly once or having accepted it itself; mgr == 1 if X was
+//!      accepted at all; in any case mgr <= 1
 //!   5. a session whose remote sent X either accepted it or had already sent it (not swallowed)
 //!   6. (mechanism level) a tap between the manager-side sender and the session's live receiver
 //!      (both public fields) records what the manager side hands to session s: at most one copy
@@ -72,6 +78,9 @@ enum Action {
     Quiesce,
     /// The remote of `session` sends `Close`; the session ends.
     Leave { session: usize },
+    /// A late joiner: the session is created through the manager and run only now, after traffic
+    /// has flowed (always between two quiescence points).
+    Join { session: usize },
 }
 
 #[derive(Clone, Debug, Serialize)]
@@ -81,9 +90,12 @@ struct FlowSpec {
     /// topic index (0 = A, 1 = B) of every session; index = session id
     topics: Vec<usize>,
     live: Vec<bool>,
-    /// sessions with id < this are created before `subscribe()`
+    /// sessions that are created mid-flow by a `Join` action (they have the highest ids)
+    late: Vec<bool>,
+    /// initial sessions with id < this are created before `subscribe()`
     created_before_subscribe: usize,
     n_ops: usize,
+    quick: bool,
     actions: Vec<Action>,
 }
 
@@ -109,57 +121,129 @@ fn gen_flow(seed: u64, flow_no: u64, tier: Tier, force_mt: Option<bool>) -> Flow
     // shuffle session order so that ids of the two topics interleave
     let mut order: Vec<usize> = (0..topics.len()).collect();
     rng.shuffle(&mut order);
-    let topics: Vec<usize> = order.iter().map(|&i| topics[i]).collect();
-    let live: Vec<bool> = order.iter().map(|&i| live[i]).collect();
-    let n = topics.len();
+    let mut topics: Vec<usize> = order.iter().map(|&i| topics[i]).collect();
+    let mut live: Vec<bool> = order.iter().map(|&i| live[i]).collect();
+    let n_initial = topics.len();
     let created_before_subscribe = match rng.below(3) {
         0 => 0,
-        1 => n,
-        _ => rng.usize_below(n + 1),
+        1 => n_initial,
+        _ => rng.usize_below(n_initial + 1),
     };
+    // Late joiners (half of the flows): 1-3 live sessions that join after traffic has flowed,
+    // mostly on topic A, usually at least two on the same topic so that an old operation
+    // re-arriving through one late joiner has another late joiner as forwarding target.
+    let mut late = vec![false; n_initial];
+    if rng.chance(0.5) {
+        let k = match rng.below(10) {
+            0..=1 => 1,
+            2..=7 => 2,
+            _ => 3,
+        };
+        let main_topic = if rng.chance(0.8) { 0 } else { 1 };
+        for i in 0..k {
+            topics.push(if i < 2 || rng.chance(0.7) { main_topic } else { 1 - main_topic });
+            live.push(true);
+            late.push(true);
+        }
+    }
+    let n = topics.len();
+    let has_late = n > n_initial;
     let mt = force_mt.unwrap_or_else(|| rng.chance(0.25));
 
     let target_ops = match tier {
         Tier::Quick => 20 + rng.usize_below(60),
         Tier::Thorough => 20 + rng.usize_below(181),
     };
-    let live_of = |t: usize, gone: &BTreeSet<usize>| -> Vec<usize> {
+    let live_of = |t: usize, gone: &BTreeSet<usize>, joined: &BTreeSet<usize>| -> Vec<usize> {
         (0..n)
-            .filter(|&s| topics[s] == t && live[s] && !gone.contains(&s))
+            .filter(|&s| {
+                topics[s] == t && live[s] && !gone.contains(&s) && (!late[s] || joined.contains(&s))
+            })
             .collect()
     };
     let mut actions = Vec::new();
-    let mut op_topic: Vec<usize> = Vec::new();
+    // topics an operation has been injected into so far
+    let mut op_topics: Vec<[bool; 2]> = Vec::new();
     let mut gone: BTreeSet<usize> = BTreeSet::new();
+    let mut joined: BTreeSet<usize> = BTreeSet::new();
     let leave_at = if rng.chance(0.25) && n_a >= 3 {
         Some(target_ops / 2)
     } else {
         None
     };
+    let join_at = if has_late {
+        Some(target_ops * (3 + rng.usize_below(4)) / 10)
+    } else {
+        None
+    };
+    // number of re-arrivals of old operations through late joiners still to schedule
+    let mut rearrivals_left = 0usize;
     let dup_rate = *rng.pick(&[0.2, 0.5, 0.8]);
     let burst = rng.chance(0.3);
-    while op_topic.len() < target_ops {
-        if Some(op_topic.len()) == leave_at && gone.is_empty() {
-            let cands = live_of(0, &gone);
+    let separator = |rng: &mut Rng, actions: &mut Vec<Action>| match rng.below(10) {
+        0..=4 => {}
+        5..=7 => actions.push(Action::Yield(1 + rng.below(3) as u8)),
+        _ => actions.push(Action::Quiesce),
+    };
+    while op_topics.len() < target_ops {
+        if Some(op_topics.len()) == leave_at && gone.is_empty() {
+            let cands = live_of(0, &gone, &joined);
             let s = *rng.pick(&cands);
             actions.push(Action::Quiesce);
             actions.push(Action::Leave { session: s });
             actions.push(Action::Quiesce);
             gone.insert(s);
         }
-        let reinject = !op_topic.is_empty() && rng.chance(dup_rate);
+        if Some(op_topics.len()) == join_at && joined.is_empty() && !op_topics.is_empty() {
+            actions.push(Action::Quiesce);
+            for s in n_initial..n {
+                actions.push(Action::Join { session: s });
+                joined.insert(s);
+            }
+            actions.push(Action::Quiesce);
+            rearrivals_left = 3 + rng.usize_below(8);
+        }
+        // An operation from before the join re-arrives through the remote of a late joiner.
+        if rearrivals_left > 0 && rng.chance(0.6) {
+            rearrivals_left -= 1;
+            let s = n_initial + rng.usize_below(n - n_initial);
+            let t = topics[s];
+            let old: Vec<usize> = (0..op_topics.len()).filter(|&o| op_topics[o][t]).collect();
+            if !old.is_empty() {
+                let op = *rng.pick(&old);
+                actions.push(Action::Remote { session: s, op });
+                if !burst || rng.chance(0.2) {
+                    separator(&mut rng, &mut actions);
+                }
+                continue;
+            }
+        }
+        let reinject = !op_topics.is_empty() && rng.chance(dup_rate);
         let op = if reinject {
             // mostly recent operations, sometimes any
             if rng.chance(0.7) {
-                op_topic.len() - 1 - rng.usize_below(op_topic.len().min(4))
+                op_topics.len() - 1 - rng.usize_below(op_topics.len().min(4))
             } else {
-                rng.usize_below(op_topic.len())
+                rng.usize_below(op_topics.len())
             }
         } else {
-            op_topic.push(if rng.chance(0.8) { 0 } else { 1 });
-            op_topic.len() - 1
+            let mut t = [false; 2];
+            t[if rng.chance(0.8) { 0 } else { 1 }] = true;
+            op_topics.push(t);
+            op_topics.len() - 1
         };
-        let cands = live_of(op_topic[op], &gone);
+        // the topic this injection goes to: one the operation already lives in, or (rarely, for
+        // re-injections) the other topic — the same operation on two topics
+        let own: Vec<usize> = (0..2).filter(|&t| op_topics[op][t]).collect();
+        let mut t = *rng.pick(&own);
+        if reinject && rng.chance(0.08) {
+            t = 1 - t;
+        }
+        let cands = live_of(t, &gone, &joined);
+        if cands.is_empty() {
+            continue;
+        }
+        op_topics[op][t] = true;
         if rng.chance(0.75) {
             actions.push(Action::Remote {
                 session: *rng.pick(&cands),
@@ -177,11 +261,7 @@ fn gen_flow(seed: u64, flow_no: u64, tier: Tier, force_mt: Option<bool>) -> Flow
             actions.push(Action::Local { sessions, op });
         }
         if !burst || rng.chance(0.2) {
-            match rng.below(10) {
-                0..=4 => {}
-                5..=7 => actions.push(Action::Yield(1 + rng.below(3) as u8)),
-                _ => actions.push(Action::Quiesce),
-            }
+            separator(&mut rng, &mut actions);
         }
     }
     FlowSpec {
@@ -189,8 +269,10 @@ fn gen_flow(seed: u64, flow_no: u64, tier: Tier, force_mt: Option<bool>) -> Flow
         mt,
         topics,
         live,
+        late,
         created_before_subscribe,
-        n_ops: op_topic.len(),
+        n_ops: op_topics.len(),
+        quick: tier == Tier::Quick,
         actions,
     }
 }
@@ -299,67 +381,96 @@ fn counts(n: usize, obs: &[(u64, Obs)]) -> Counts {
     c
 }
 
-struct OpMeta {
-    hash: Hash,
-    topic: usize,
-    /// sessions that were live members of the topic when the op was first injected and still are
-    /// at the end (a session that left in between is not judged for this op)
-    expect: Vec<usize>,
+/// Who is a member of what, and since when.
+struct Env<'a> {
+    n: usize,
+    topics: &'a [usize],
+    live: &'a [bool],
+    /// global observation sequence number from which the session is a live member of its topic
+    /// (0 for initial sessions, `u64::MAX` for a late joiner that has not joined yet)
+    join_seq: &'a [u64],
+    gone: &'a BTreeSet<usize>,
 }
 
 /// Liveness clauses (4, 5). `None` = complete.
-fn incomplete(n: usize, meta: &OpMeta, obs: &[(u64, Obs)]) -> Option<(String, String)> {
-    let c = counts(n, obs);
-    for &s in &meta.expect {
-        if c.inj_remote[s] > 0 && c.sent[s] + c.ev[s] == 0 {
-            return Some((
-                "C23:received-op-swallowed".into(),
-                format!(
-                    "the remote of session {s} sent the operation; the session neither reported \
-                     it nor had sent it before"
-                ),
-            ));
-        }
-    }
-    let accepted = c.ev.iter().any(|&e| e > 0);
-    if accepted {
-        for &s in &meta.expect {
-            if c.ev[s] == 0 && c.sent[s] == 0 {
+///
+/// Clause 4 is evaluated per acceptance: whenever a session reported the operation, every other
+/// session of that topic that was a live member *at that moment* (late joiners count from their
+/// join on) must end up having sent it to its remote or having accepted it from its remote.
+fn incomplete(env: &Env, obs: &[(u64, Obs)]) -> Option<(String, String)> {
+    let c = counts(env.n, obs);
+    for (_, o) in obs {
+        if let Obs::InjectRemote { session: s } = o {
+            if !env.gone.contains(s) && c.sent[*s] + c.ev[*s] == 0 {
                 return Some((
-                    "C23:not-forwarded-to-live-session".into(),
+                    "C23:received-op-swallowed".into(),
                     format!(
-                        "the operation was received by a session of the topic but live session \
-                         {s} of the same topic never sent it to its remote"
+                        "the remote of session {s} sent the operation; the session neither \
+                         reported it nor had sent it before"
                     ),
                 ));
             }
         }
-        if c.mgr == 0 {
-            return Some((
-                "C23:manager-stream-never-reported".into(),
-                "the operation was received by a session but never appeared on the manager \
-                 event stream"
-                    .into(),
-            ));
+    }
+    let mut accepted = false;
+    for (q, o) in obs {
+        let Obs::Received { session: src } = o else {
+            continue;
+        };
+        accepted = true;
+        for s in 0..env.n {
+            if s != *src
+                && env.topics[s] == env.topics[*src]
+                && env.live[s]
+                && env.join_seq[s] < *q
+                && !env.gone.contains(&s)
+                && c.ev[s] == 0
+                && c.sent[s] == 0
+            {
+                return Some((
+                    "C23:not-forwarded-to-live-session".into(),
+                    format!(
+                        "session {src} accepted the operation from its remote (observation #{q}) \
+                         while session {s} was a live member of the same topic (since #{}), but \
+                         session {s} never sent it to its remote",
+                        env.join_seq[s]
+                    ),
+                ));
+            }
         }
+    }
+    if accepted && c.mgr == 0 {
+        return Some((
+            "C23:manager-stream-never-reported".into(),
+            "the operation was received by a session but never appeared on the manager event \
+             stream"
+                .into(),
+        ));
     }
     None
 }
 
-/// Safety clauses (1, 2, 3, mgr <= 1).
-fn unsafe_obs(
-    n: usize,
-    topics: &[usize],
-    meta: &OpMeta,
-    obs: &[(u64, Obs)],
-) -> Vec<(String, String)> {
+/// Safety clauses (1, 2, 3, 6, mgr <= 1).
+fn unsafe_obs(env: &Env, obs: &[(u64, Obs)]) -> Vec<(String, String)> {
+    let n = env.n;
+    let topics = env.topics;
     let c = counts(n, obs);
+    // topics the operation was injected into
+    let mut op_topics = [false; 2];
+    for (_, o) in obs {
+        if let Obs::InjectRemote { session } | Obs::InjectLocal { session } = o {
+            op_topics[topics[*session]] = true;
+        }
+    }
     let mut v = Vec::new();
     for s in 0..n {
-        if topics[s] != meta.topic && c.sent[s] > 0 {
+        if !op_topics[topics[s]] && c.sent[s] > 0 {
             v.push((
                 "C23:forwarded-across-topics".into(),
-                format!("session {s} belongs to another topic and sent the operation"),
+                format!(
+                    "session {s} belongs to a topic the operation never arrived on and sent the \
+                     operation"
+                ),
             ));
             continue;
         }
@@ -409,16 +520,20 @@ fn unsafe_obs(
         }
     }
     // Clause 6 (mechanism level, see module docs): what the manager side hands to session s is at
-    // most one copy per *other* session that reported the operation, plus local publishes to s.
+    // most one copy per *other* session of its topic that reported the operation, plus local
+    // publishes to s.
     for s in 0..n {
-        let others: u32 = (0..n).filter(|&x| x != s).map(|x| c.ev[x]).sum();
+        let others: u32 = (0..n)
+            .filter(|&x| x != s && topics[x] == topics[s])
+            .map(|x| c.ev[x])
+            .sum();
         if c.handed[s] > others + c.inj_local[s] {
             v.push((
                 "C23:manager-handed-op-back-to-reporting-session".into(),
                 format!(
                     "session {s} was handed the operation {} times by the manager side, but only \
-                     {others} reports by other sessions and {} local publishes account for it: \
-                     the manager forwarded the operation back to the session that reported it",
+                     {others} reports by other sessions of its topic and {} local publishes \
+                     account for it",
                     c.handed[s], c.inj_local[s]
                 ),
             ));
@@ -491,8 +606,87 @@ async fn wait_until(
     Ok(())
 }
 
+/// Create session `s` through the manager, tap its live channel, run it against a harness-owned
+/// remote end and record its events. Returns the sender that plays the remote.
+async fn start_session(
+    manager: &mut TestTopicSyncManager,
+    s: usize,
+    topic: Topic,
+    live_mode: bool,
+    remote_key: &SigningKey,
+    log: &Shared,
+    tasks: &mut Vec<tokio::task::JoinHandle<()>>,
+) -> mpsc::UnboundedSender<Msg> {
+    let config = SessionConfig {
+        topic,
+        remote: remote_key.verifying_key(),
+        live_mode,
+    };
+    let mut session = manager.session(s as u64, &config).await;
+    let mut ev_rx = session.event_tx.subscribe();
+    // Tap between the manager-side sender and the session's live receiver (both are public
+    // fields): records what the manager side hands to this session, keeps FIFO order.
+    if let Some(mut orig_rx) = session.live_mode_rx.take() {
+        let (mut tap_tx, tap_rx) = mpsc::channel(1028);
+        session.live_mode_rx = Some(tap_rx);
+        let tap_log = log.clone();
+        tasks.push(tokio::spawn(async move {
+            while let Some(m) = orig_rx.next().await {
+                if let ToSync::Payload(op) = &m {
+                    tap_log
+                        .lock()
+                        .unwrap()
+                        .push(op.hash, Obs::Handed { session: s });
+                }
+                if tap_tx.send(m).await.is_err() {
+                    break;
+                }
+            }
+        }));
+    }
+    let (tx, rx) = mpsc::unbounded::<Msg>();
+    tx.unbounded_send(Msg::Sync(LogSyncMessage::Have(BTreeMap::new())))
+        .unwrap();
+    tx.unbounded_send(Msg::Sync(LogSyncMessage::Done)).unwrap();
+    let sink_log = log.clone();
+    let end_log = log.clone();
+    tasks.push(tokio::spawn(async move {
+        let mut sink = RecSink {
+            session: s,
+            log: sink_log,
+        };
+        let mut stream = rx.map(Ok::<_, ()>);
+        let _ = session.run(&mut sink, &mut stream).await;
+        end_log.lock().unwrap().ended.insert(s);
+    }));
+    let ev_log = log.clone();
+    tasks.push(tokio::spawn(async move {
+        loop {
+            match ev_rx.recv().await {
+                Ok(ev) => {
+                    let mut l = ev_log.lock().unwrap();
+                    l.session_events += 1;
+                    match ev {
+                        TopicLogSyncEvent::LiveModeStarted => {
+                            l.live_started.insert(s);
+                        }
+                        TopicLogSyncEvent::OperationReceived { operation, .. } => {
+                            l.push(operation.hash, Obs::Received { session: s });
+                        }
+                        _ => {}
+                    }
+                }
+                Err(broadcast::error::RecvError::Lagged(_)) => {}
+                Err(broadcast::error::RecvError::Closed) => break,
+            }
+        }
+    }));
+    tx
+}
+
 async fn play(spec: &FlowSpec, seed: u64) -> FlowResult {
     let n = spec.topics.len();
+    let n_initial = spec.late.iter().filter(|l| !**l).count();
     let mut rng = Rng::fork(seed ^ 0x0c23_0c23, spec.flow_no);
     let mut peer = Peer {
         store: SqliteStore::temporary().await,
@@ -504,14 +698,17 @@ async fn play(spec: &FlowSpec, seed: u64) -> FlowResult {
     }
     let ops = make_ops(&mut rng, spec.n_ops, "op");
     let markers = make_ops(&mut rng, n, "marker");
+    let remote_keys: Vec<SigningKey> = (0..n)
+        .map(|_| SigningKey::from_bytes(&rng.array32()))
+        .collect();
 
     let log: Shared = Default::default();
     let mut manager = TestTopicSyncManager::new(peer.store.clone());
-    let mut remote_tx: Vec<Option<mpsc::UnboundedSender<Msg>>> = Vec::new();
+    let mut remote_tx: Vec<Option<mpsc::UnboundedSender<Msg>>> = (0..n).map(|_| None).collect();
     let mut tasks = Vec::new();
     let mut mgr_stream = None;
 
-    for s in 0..=n {
+    for s in 0..=n_initial {
         if s == spec.created_before_subscribe {
             let mut stream = manager.subscribe();
             let log = log.clone();
@@ -534,79 +731,27 @@ async fn play(spec: &FlowSpec, seed: u64) -> FlowResult {
                 }
             }));
         }
-        if s == n {
+        if s == n_initial {
             break;
         }
-        let remote_key = SigningKey::from_bytes(&rng.array32());
-        let config = SessionConfig {
-            topic: topic_ids[spec.topics[s]],
-            remote: remote_key.verifying_key(),
-            live_mode: spec.live[s],
-        };
-        let mut session = manager.session(s as u64, &config).await;
-        let mut ev_rx = session.event_tx.subscribe();
-        // Tap between the manager-side sender and the session's live receiver (both are public
-        // fields): records what the manager side hands to this session, keeps FIFO order.
-        if let Some(mut orig_rx) = session.live_mode_rx.take() {
-            let (mut tap_tx, tap_rx) = mpsc::channel(1028);
-            session.live_mode_rx = Some(tap_rx);
-            let tap_log = log.clone();
-            tasks.push(tokio::spawn(async move {
-                while let Some(m) = orig_rx.next().await {
-                    if let ToSync::Payload(op) = &m {
-                        tap_log.lock().unwrap().push(op.hash, Obs::Handed { session: s });
-                    }
-                    if tap_tx.send(m).await.is_err() {
-                        break;
-                    }
-                }
-            }));
-        }
-        let (tx, rx) = mpsc::unbounded::<Msg>();
-        tx.unbounded_send(Msg::Sync(LogSyncMessage::Have(BTreeMap::new())))
-            .unwrap();
-        tx.unbounded_send(Msg::Sync(LogSyncMessage::Done)).unwrap();
-        remote_tx.push(Some(tx));
-        let sink_log = log.clone();
-        let end_log = log.clone();
-        tasks.push(tokio::spawn(async move {
-            let mut sink = RecSink {
-                session: s,
-                log: sink_log,
-            };
-            let mut stream = rx.map(Ok::<_, ()>);
-            let _ = session.run(&mut sink, &mut stream).await;
-            end_log.lock().unwrap().ended.insert(s);
-        }));
-        let ev_log = log.clone();
-        tasks.push(tokio::spawn(async move {
-            loop {
-                match ev_rx.recv().await {
-                    Ok(ev) => {
-                        let mut l = ev_log.lock().unwrap();
-                        l.session_events += 1;
-                        match ev {
-                            TopicLogSyncEvent::LiveModeStarted => {
-                                l.live_started.insert(s);
-                            }
-                            TopicLogSyncEvent::OperationReceived { operation, .. } => {
-                                l.push(operation.hash, Obs::Received { session: s });
-                            }
-                            _ => {}
-                        }
-                    }
-                    Err(broadcast::error::RecvError::Lagged(_)) => {}
-                    Err(broadcast::error::RecvError::Closed) => break,
-                }
-            }
-        }));
+        let tx = start_session(
+            &mut manager,
+            s,
+            topic_ids[spec.topics[s]],
+            spec.live[s],
+            &remote_keys[s],
+            &log,
+            &mut tasks,
+        )
+        .await;
+        remote_tx[s] = Some(tx);
     }
 
-    let live_sessions: Vec<usize> = (0..n).filter(|&s| spec.live[s]).collect();
     let mut result = FlowResult {
         spec_summary: json!({
             "flow_no": spec.flow_no, "mode": if spec.mt { "mt" } else { "paused" },
             "session_topics": spec.topics, "session_live": spec.live,
+            "session_joins_late": spec.late,
             "created_before_subscribe": spec.created_before_subscribe,
             "ops": spec.n_ops, "actions": spec.actions.len(),
         }),
@@ -618,13 +763,15 @@ async fn play(spec: &FlowSpec, seed: u64) -> FlowResult {
         sample: Value::Null,
     };
 
-    // Barrier: every live session is in live mode (store access is over from here on).
+    // Barrier: every initial live session is in live mode (store access is over from here on).
     {
         let log = log.clone();
-        let want = live_sessions.len();
-        if let Err(e) = wait_until("LiveModeStarted on every live session", Duration::from_secs(60), || {
-            log.lock().unwrap().live_started.len() >= want
-        })
+        let want = (0..n_initial).filter(|&s| spec.live[s]).count();
+        if let Err(e) = wait_until(
+            "LiveModeStarted on every live session",
+            Duration::from_secs(60),
+            || log.lock().unwrap().live_started.len() >= want,
+        )
         .await
         {
             result.inconclusive = Some(e);
@@ -635,31 +782,41 @@ async fn play(spec: &FlowSpec, seed: u64) -> FlowResult {
         tokio::time::pause();
     }
 
-    // Book-keeping of what was injected.
-    let mut metas: BTreeMap<usize, OpMeta> = BTreeMap::new();
+    // Book-keeping of what was injected and who is a member since when.
+    let mut metas: BTreeMap<usize, Hash> = BTreeMap::new();
     let mut gone: BTreeSet<usize> = BTreeSet::new();
+    let mut join_seq: Vec<u64> = (0..n)
+        .map(|s| if spec.late[s] { u64::MAX } else { 0 })
+        .collect();
     let mut injected_remote = 0u64;
     let mut injected_local = 0u64;
     let mut quiesce_points = 0u64;
 
+    // mt flows only: how long to wait for the completeness counters before giving up as
+    // inconclusive (a broken tree makes every mt flow wait this long, so keep it short in quick)
+    let mt_watchdog = Duration::from_secs(if spec.quick { 10 } else { 30 });
+
     macro_rules! quiesce {
-        ($metas:expr) => {{
+        ($hashes:expr) => {{
             quiesce_points += 1;
             if spec.mt {
                 let log = log.clone();
-                let metas_ref: Vec<(&usize, &OpMeta)> = $metas.iter().collect();
-                let r = wait_until("ledger completeness", Duration::from_secs(30), || {
+                let hashes: Vec<Hash> = $hashes;
+                let env = Env {
+                    n,
+                    topics: &spec.topics,
+                    live: &spec.live,
+                    join_seq: &join_seq,
+                    gone: &gone,
+                };
+                wait_until("ledger completeness", mt_watchdog, || {
                     let l = log.lock().unwrap();
-                    metas_ref.iter().all(|(_, m)| {
-                        let obs = l.per_op.get(&m.hash).map(|v| v.as_slice()).unwrap_or(&[]);
-                        let expect: Vec<usize> =
-                            m.expect.iter().copied().filter(|s| !gone.contains(s)).collect();
-                        let mm = OpMeta { hash: m.hash, topic: m.topic, expect };
-                        incomplete(n, &mm, obs).is_none()
+                    hashes.iter().all(|h| {
+                        let obs = l.per_op.get(h).map(|v| v.as_slice()).unwrap_or(&[]);
+                        incomplete(&env, obs).is_none()
                     })
                 })
-                .await;
-                r
+                .await
             } else {
                 tokio::time::sleep(Duration::from_millis(20)).await;
                 Ok::<(), String>(())
@@ -671,18 +828,10 @@ async fn play(spec: &FlowSpec, seed: u64) -> FlowResult {
         match action {
             Action::Remote { session, op } => {
                 let o = &ops[*op];
-                metas.entry(*op).or_insert_with(|| OpMeta {
-                    hash: o.hash,
-                    topic: spec.topics[*session],
-                    expect: (0..n)
-                        .filter(|&s| {
-                            spec.topics[s] == spec.topics[*session]
-                                && spec.live[s]
-                                && !gone.contains(&s)
-                        })
-                        .collect(),
-                });
-                log.lock().unwrap().push(o.hash, Obs::InjectRemote { session: *session });
+                metas.entry(*op).or_insert(o.hash);
+                log.lock()
+                    .unwrap()
+                    .push(o.hash, Obs::InjectRemote { session: *session });
                 if let Some(tx) = &remote_tx[*session] {
                     let _ = tx.unbounded_send(Msg::Live(o.header.clone(), o.body.clone()));
                 }
@@ -690,16 +839,11 @@ async fn play(spec: &FlowSpec, seed: u64) -> FlowResult {
             }
             Action::Local { sessions, op } => {
                 let o = &ops[*op];
-                let t = spec.topics[sessions[0]];
-                metas.entry(*op).or_insert_with(|| OpMeta {
-                    hash: o.hash,
-                    topic: t,
-                    expect: (0..n)
-                        .filter(|&s| spec.topics[s] == t && spec.live[s] && !gone.contains(&s))
-                        .collect(),
-                });
+                metas.entry(*op).or_insert(o.hash);
                 for &s in sessions {
-                    log.lock().unwrap().push(o.hash, Obs::InjectLocal { session: s });
+                    log.lock()
+                        .unwrap()
+                        .push(o.hash, Obs::InjectLocal { session: s });
                     if let Some(mut h) = manager.session_handle(s as u64).await {
                         let _ = h.send(ToSync::Payload(o.clone())).await;
                     }
@@ -712,7 +856,7 @@ async fn play(spec: &FlowSpec, seed: u64) -> FlowResult {
                 }
             }
             Action::Quiesce => {
-                if let Err(e) = quiesce!(metas) {
+                if let Err(e) = quiesce!(metas.values().copied().collect()) {
                     result.inconclusive = Some(e);
                     return result;
                 }
@@ -724,10 +868,11 @@ async fn play(spec: &FlowSpec, seed: u64) -> FlowResult {
                     let log = log.clone();
                     let s = *session;
                     if spec.mt {
-                        if let Err(e) = wait_until("leaving session ended", Duration::from_secs(30), || {
-                            log.lock().unwrap().ended.contains(&s)
-                        })
-                        .await
+                        if let Err(e) =
+                            wait_until("leaving session ended", Duration::from_secs(30), || {
+                                log.lock().unwrap().ended.contains(&s)
+                            })
+                            .await
                         {
                             result.inconclusive = Some(e);
                             return result;
@@ -739,32 +884,64 @@ async fn play(spec: &FlowSpec, seed: u64) -> FlowResult {
                 }
                 gone.insert(*session);
             }
+            Action::Join { session } => {
+                // The sync phase of the new session talks to SQLite: real clock while it joins.
+                // The generator puts a quiescence point before and after every join, so nothing
+                // is in flight while membership changes.
+                let s = *session;
+                if !spec.mt {
+                    tokio::time::resume();
+                }
+                let tx = start_session(
+                    &mut manager,
+                    s,
+                    topic_ids[spec.topics[s]],
+                    spec.live[s],
+                    &remote_keys[s],
+                    &log,
+                    &mut tasks,
+                )
+                .await;
+                remote_tx[s] = Some(tx);
+                let wlog = log.clone();
+                let joined = wait_until(
+                    "LiveModeStarted on a late joiner",
+                    Duration::from_secs(60),
+                    || wlog.lock().unwrap().live_started.contains(&s),
+                )
+                .await;
+                if !spec.mt {
+                    tokio::time::pause();
+                    tokio::time::sleep(Duration::from_millis(20)).await;
+                }
+                if let Err(e) = joined {
+                    result.inconclusive = Some(e);
+                    return result;
+                }
+                join_seq[s] = log.lock().unwrap().seq;
+            }
         }
     }
 
     // Final quiescence.
-    let mut final_ok = quiesce!(metas);
-    let mut marker_metas: BTreeMap<usize, OpMeta> = BTreeMap::new();
+    let mut final_ok = quiesce!(metas.values().copied().collect());
+    let mut marker_metas: BTreeMap<usize, Hash> = BTreeMap::new();
     if spec.mt && final_ok.is_ok() {
         // FIFO flush: one marker through every live session.
-        for &s in &live_sessions {
-            if gone.contains(&s) {
+        for s in 0..n {
+            if !spec.live[s] || gone.contains(&s) || join_seq[s] == u64::MAX {
                 continue;
             }
             let m = &markers[s];
-            marker_metas.insert(s, OpMeta {
-                hash: m.hash,
-                topic: spec.topics[s],
-                expect: (0..n)
-                    .filter(|&x| spec.topics[x] == spec.topics[s] && spec.live[x] && !gone.contains(&x))
-                    .collect(),
-            });
-            log.lock().unwrap().push(m.hash, Obs::InjectRemote { session: s });
+            marker_metas.insert(s, m.hash);
+            log.lock()
+                .unwrap()
+                .push(m.hash, Obs::InjectRemote { session: s });
             if let Some(tx) = &remote_tx[s] {
                 let _ = tx.unbounded_send(Msg::Live(m.header.clone(), m.body.clone()));
             }
         }
-        final_ok = quiesce!(marker_metas);
+        final_ok = quiesce!(marker_metas.values().copied().collect());
     }
     if !spec.mt {
         // a second, longer idle period: nothing may be left in any queue
@@ -778,15 +955,26 @@ async fn play(spec: &FlowSpec, seed: u64) -> FlowResult {
 
     // Judge.
     let l = log.lock().unwrap();
+    let env = Env {
+        n,
+        topics: &spec.topics,
+        live: &spec.live,
+        join_seq: &join_seq,
+        gone: &gone,
+    };
     let mut per_sig: BTreeMap<String, u32> = BTreeMap::new();
     let mut received_ops = 0u64;
     let mut dup_ops = 0u64;
     let mut forwards = 0u64;
     let mut crossing = 0u64;
-    for (idx, m) in metas.iter().map(|(i, m)| (*i as i64, m)).chain(
-        marker_metas.iter().map(|(i, m)| (-(*i as i64) - 1, m)),
-    ) {
-        let obs = l.per_op.get(&m.hash).map(|v| v.as_slice()).unwrap_or(&[]);
+    let mut late_rearrivals = 0u64;
+    let mut two_topic_ops = 0u64;
+    for (idx, h) in metas
+        .iter()
+        .map(|(i, h)| (*i as i64, h))
+        .chain(marker_metas.iter().map(|(i, h)| (-(*i as i64) - 1, h)))
+    {
+        let obs = l.per_op.get(h).map(|v| v.as_slice()).unwrap_or(&[]);
         let c = counts(n, obs);
         if c.ev.iter().any(|&e| e > 0) {
             received_ops += 1;
@@ -798,16 +986,30 @@ async fn play(spec: &FlowSpec, seed: u64) -> FlowResult {
         if c.ev.iter().filter(|&&e| e > 0).count() > 1 {
             crossing += 1;
         }
+        // an operation some session accepted before the join is accepted again by a late joiner
+        let first_ev = obs
+            .iter()
+            .find(|(_, o)| matches!(o, Obs::Received { .. }))
+            .map(|(q, _)| *q);
+        if let Some(q0) = first_ev {
+            if (0..n).any(|s| spec.late[s] && c.ev[s] > 0 && join_seq[s] != u64::MAX && q0 < join_seq[s])
+            {
+                late_rearrivals += 1;
+            }
+        }
+        let mut on = [false; 2];
+        for (_, o) in obs {
+            if let Obs::Received { session } = o {
+                on[spec.topics[*session]] = true;
+            }
+        }
+        if on[0] && on[1] {
+            two_topic_ops += 1;
+        }
         forwards += c.sent.iter().sum::<u32>() as u64;
-        let expect: Vec<usize> = m.expect.iter().copied().filter(|s| !gone.contains(s)).collect();
-        let mm = OpMeta {
-            hash: m.hash,
-            topic: m.topic,
-            expect,
-        };
-        let mut found = unsafe_obs(n, &spec.topics, &mm, obs);
+        let mut found = unsafe_obs(&env, obs);
         if !spec.mt {
-            if let Some(f) = incomplete(n, &mm, obs) {
+            if let Some(f) = incomplete(&env, obs) {
                 found.push(f);
             }
         }
@@ -820,22 +1022,25 @@ async fn play(spec: &FlowSpec, seed: u64) -> FlowResult {
                 result.more.push((sig, what));
                 continue;
             }
-            result.violations.push((sig, what, json!({
-                "seed": seed, "flow": result.spec_summary,
-                "operation": if idx >= 0 { json!(idx) } else { json!(format!("marker-{}", -idx - 1)) },
-                "operation_topic": m.topic,
-                "expected_live_members": mm.expect,
-                "sessions_gone": gone,
-                "trace_of_this_operation_in_global_order": obs,
-                "actions": spec.actions,
-            })));
+            result.violations.push((
+                sig,
+                what,
+                json!({
+                    "seed": seed, "flow": result.spec_summary,
+                    "operation": if idx >= 0 { json!(idx) } else { json!(format!("marker-{}", -idx - 1)) },
+                    "session_member_since_observation": join_seq,
+                    "sessions_gone": gone,
+                    "trace_of_this_operation_in_global_order": obs,
+                    "actions": spec.actions,
+                }),
+            ));
         }
     }
     // observations about operations nobody injected (cannot happen with an honest harness)
     let known: BTreeSet<Hash> = metas
         .values()
         .chain(marker_metas.values())
-        .map(|m| m.hash)
+        .copied()
         .collect();
     for (h, obs) in l.per_op.iter() {
         if !known.contains(h) {
@@ -847,18 +1052,23 @@ async fn play(spec: &FlowSpec, seed: u64) -> FlowResult {
         }
     }
 
+    let late_joined = (0..n).filter(|&s| spec.late[s] && join_seq[s] != u64::MAX).count();
     result.stats.insert("ops_injected", metas.len() as u64);
     result.stats.insert("remote_injections", injected_remote);
     result.stats.insert("local_publishes", injected_local);
     result.stats.insert("ops_accepted_by_some_session", received_ops);
     result.stats.insert("ops_injected_more_than_once", dup_ops);
-    result.stats.insert("ops_accepted_by_two_or_more_sessions_concurrently", crossing);
+    result.stats.insert("ops_accepted_by_two_or_more_sessions", crossing);
+    result.stats.insert("old_ops_accepted_again_through_a_late_joiner", late_rearrivals);
+    result.stats.insert("ops_accepted_on_both_topics", two_topic_ops);
     result.stats.insert("live_messages_sent_by_sessions", forwards);
     result.stats.insert("manager_stream_items", l.manager_items);
     result.stats.insert("session_events", l.session_events);
     result.stats.insert("quiescence_points", quiesce_points);
     result.stats.insert("sessions", n as u64);
     result.stats.insert("sessions_left", gone.len() as u64);
+    result.stats.insert("sessions_joined_late", late_joined as u64);
+    result.stats.insert("flows_with_late_joiners", (late_joined > 0) as u64);
     result.stats.insert(if spec.mt { "flows_mt" } else { "flows_paused" }, 1);
 
     // non-trivial: at least one op was accepted and forwarded, and at least one duplicate arrived
@@ -871,7 +1081,7 @@ async fn play(spec: &FlowSpec, seed: u64) -> FlowResult {
         result.sample = json!({
             "flow": result.spec_summary,
             "first_actions": spec.actions.iter().take(12).collect::<Vec<_>>(),
-            "trace_of_first_operation": first.and_then(|m| l.per_op.get(&m.hash)),
+            "trace_of_first_operation": first.and_then(|h| l.per_op.get(h)),
             "stats": result.stats,
         });
     }
@@ -917,7 +1127,8 @@ pub fn run(args: &Args) {
                 (2-5 live sessions on topic A, 1-2 on topic B, optional non-live session, \
                 sessions created before/after subscribe, 20-200 operations injected by remotes \
                 or published locally, re-injected from other sessions with no gap / yields / \
-                quiescence in between, a remote leaving); non-trivial = some operation was \
+                quiescence in between, a remote leaving, sessions joining late with old operations \
+                re-arriving through them, an operation arriving on both topics); non-trivial = some operation was \
                 accepted from a remote and forwarded and at least one duplicate injection \
                 happened and the flow reached quiescence; distinct = distinct action schedules. \
                 Second workload: one session with a window of 1-8 operations, arrivals from \
@@ -939,7 +1150,7 @@ pub fn run(args: &Args) {
     let workers = args.param_u64("workers", 8) as usize;
     let deadline = Instant::now()
         + match args.tier {
-            Tier::Quick => Duration::from_secs(80),
+            Tier::Quick => Duration::from_secs(55),
             Tier::Thorough => Duration::from_secs(28 * 60),
         };
     let seed = args.seed;
